@@ -40,14 +40,24 @@ CONSTANTS ExtClass,    \* spelling -> class "n" | "p" | "s" | "i"
 
 \* ---- lexical classes of the spellings used by the enumerations ------------
 Nums   == {"0", "1", "2", "3", "5"}
-Puncts == {"+", "-", "*", "(", ")", ",", "=", "[", "]", "<", ";"}
-\* string / character literals of the alphabet and their spelling inside a # result
-EscTab == [ s \in {"\"O,F\"", "'F'", "\"a\\n\"", "\"G(1)\"", "'\"'"} |->
-            CASE s = "\"O,F\""  -> "\\\"O,F\\\""
-              [] s = "'F'"      -> "'F'"
-              [] s = "\"a\\n\""  -> "\\\"a\\\\n\\\""
-              [] s = "\"G(1)\"" -> "\\\"G(1)\\\""
-              [] s = "'\"'"     -> "'\\\"'" ]
+Puncts == {"+", "-", "*", "(", ")", ",", "=", "[", "]", "<", ";", ">", ">=", "==", "|"}
+\* string / character literals of the alphabet and their spelling inside a # result (" and \ escaped);
+\* generated: C spelling :> spelling after #
+EscTab == (   "\"O,F\"" :> "\\\"O,F\\\""
+          @@ "'F'" :> "'F'"
+          @@ "\"a\\n\"" :> "\\\"a\\\\n\\\""
+          @@ "\"G(1)\"" :> "\\\"G(1)\\\""
+          @@ "'\"'" :> "'\\\"'"
+          @@ "\"a\\\\\"" :> "\\\"a\\\\\\\\\\\""
+          @@ "'\\\\'" :> "'\\\\\\\\'"
+          @@ "\"\\\"\"" :> "\\\"\\\\\\\"\\\""
+          @@ "\"a,b\"" :> "\\\"a,b\\\""
+          @@ "\"a)b\"" :> "\\\"a)b\\\""
+          @@ "\"(\"" :> "\\\"(\\\""
+          @@ "'x'" :> "'x'"
+          @@ "'\\''" :> "'\\\\''"
+          @@ "\"a\\\\\\\"b\"" :> "\\\"a\\\\\\\\\\\\\\\"b\\\""
+          @@ "\"a=b\"" :> "\\\"a=b\\\"" )
 Markers == {"$U", "$A", "$P", "$X", "$M"}
 
 ClassOf(s) == IF s \in DOMAIN ExtClass THEN ExtClass[s]
@@ -58,7 +68,7 @@ CanEsc(s) == s \in DOMAIN EscTab \/ s \in DOMAIN ExtEsc
 Tok(s)    == [t |-> s, hs |-> {}, c |-> ClassOf(s)]
 Toks(ss)  == [i \in 1..Len(ss) |-> Tok(ss[i])]
 Texts(ts) == [i \in 1..Len(ts) |-> ts[i].t]
-HsAdd(hs, ts) == [i \in 1..Len(ts) |-> [ts[i] EXCEPT !.hs = @ \cup hs]]
+HsAdd(hs, ts) == [i \in 1..Len(ts) |-> [ts[i] EXCEPT !.hs = @ \cup hs, !.c = IF @ = "in" THEN "i" ELSE @]]
 Last(s)  == s[Len(s)]
 Front(s) == SubSeq(s, 1, Len(s) - 1)
 HasMarker(ts) == \E i \in 1..Len(ts) : ts[i].c = "m"
@@ -110,11 +120,23 @@ Stringize(ts) ==
   ELSE [t |-> "\"" \o Spell(ts) \o "\"", hs |-> {}, c |-> "s"]
 
 \* ## operator.  Placemarkers are empty sequences.  The result must be one valid token.
-PasteClass(l, r) == CASE l = "i" /\ r \in {"i", "n"} -> "i"
+\* Class "in": an identifier just pasted from identifier ## number.  The order in which several
+\* ## of one replacement list are evaluated is unspecified; pasting an identifier to it would be
+\* number ## identifier (no token) in the other order, so that has no value.  The class only
+\* lives inside one substitution (HsAdd turns it into "i").
+PasteClass(l, r) == CASE l = "i" /\ r = "i" -> "i"
+                      [] l \in {"i", "in"} /\ r = "n" -> "in"
                       [] l = "n" /\ r = "n" -> "n"
                       [] OTHER -> "m"
+\* PM: the placemarker left by an empty left operand of ##, kept as the last element of the
+\* substitution result while the next operator is ##; stripped at the end of the substitution.
+PM == [t |-> "", hs |-> {}, c |-> "pm"]
+EndsPM(ls) == ls # <<>> /\ Last(ls).c = "pm"
+Strip(ts) == SelectSeq(ts, LAMBDA tk : tk.c # "pm")
 Glue(ls, rs) ==
-  IF ls = <<>> THEN rs ELSE IF rs = <<>> THEN ls
+  IF rs = <<>> THEN ls                              \* x ## placemarker = x, placemarker ## placemarker = placemarker
+  ELSE IF EndsPM(ls) THEN Front(ls) \o rs           \* placemarker ## y = y, a token of its own
+  ELSE IF ls = <<>> THEN rs
   ELSE LET c == PasteClass(Last(ls).c, Head(rs).c) IN
        Front(ls) \o << IF c = "m" THEN Tok("$P")
                        ELSE [t |-> Last(ls).t \o Head(rs).t, hs |-> Last(ls).hs \cap Head(rs).hs, c |-> c] >>
@@ -177,7 +199,7 @@ ArgPaint(D, hs, ts) ==
 InSeq(x, q) == \E i \in 1..Len(q) : q[i] = x
 RECURSIVE Expand(_, _, _), Subst(_, _, _, _, _)
 Subst(D, is, cx, os, ev) ==
-  IF is = <<>> THEN R(HsAdd(cx.hs, os), ev)
+  IF is = <<>> THEN R(HsAdd(cx.hs, Strip(os)), ev)
   ELSE LET h == Head(is) r == Tail(is) d == cx.d ap == cx.ap IN
     IF h = "#" /\ d.fn /\ r # <<>> /\ IsParam(d, Head(r))
       THEN Subst(D, Tail(r), cx, Append(os, Stringize(Select(d, ap, Head(r)))),
@@ -190,25 +212,34 @@ Subst(D, is, cx, os, ev) ==
            ELSE IF Len(ap) <= Len(d.params) THEN Subst(D, Tail(r), cx, Front(os), ev)
            ELSE Subst(D, Tail(r), cx, os \o VaArgs(d, ap), ev)
     ELSE IF h = "##" /\ r # <<>> /\ IsParam(d, Head(r))
-      THEN Subst(D, Tail(r), cx, Glue(os, Select(d, ap, Head(r))), ev)
+      THEN Subst(D, Tail(r), cx, Glue(os, Select(d, ap, Head(r))),
+                 ev \cup Ev(EndsPM(os) /\ Strip(os) # <<>> /\ Select(d, ap, Head(r)) # <<>>, "pasteempty"))
+    ELSE IF h = "##" /\ Len(r) >= 2 /\ Head(r) = "__VA_OPT__" /\ d.va /\ r[2] = "(" /\ MatchS(r, 2, 0) # 0
+      \* __VA_OPT__ ( content ) as the right operand of ##: its replacement is pasted like an
+      \* argument; a placemarker if there is no variable argument or no content
+      THEN LET close == MatchS(r, 2, 0)
+               content == SubSeq(r, 3, close - 1)
+               rest == SubSeq(r, close + 1, Len(r))
+               va == Expand(D, VaArgs(d, ap), Append(cx.encl, cx.m))
+           IN IF HasMarker(va.ts) THEN R(<<Tok("$M")>>, ev)
+              ELSE IF va.ts # <<>> /\ content # <<>> THEN Subst(D, <<"##">> \o content \o rest, cx, os, ev)
+              ELSE Subst(D, rest, cx, os,
+                         ev \cup Ev(va.ts = <<>> /\ (Len(ap) > Len(d.params) \/ Len(d.params) = 0), "vaoptempty"))
     ELSE IF h = "##" /\ r # <<>>
-      THEN Subst(D, Tail(r), cx, Glue(os, <<Tok(Head(r))>>), ev)
+      THEN Subst(D, Tail(r), cx, Glue(os, <<Tok(Head(r))>>), ev \cup Ev(EndsPM(os) /\ Strip(os) # <<>>, "pasteempty"))
     ELSE IF IsParam(d, h) /\ r # <<>> /\ Head(r) = "##"
-      THEN LET a == Select(d, ap, h) IN          \* operand of ##: not macro-expanded
-           IF a = <<>>                           \* placemarker ## rhs = rhs (unexpanded)
-           THEN (IF Len(r) >= 2 /\ IsParam(d, r[2])
-                 THEN Subst(D, Tail(Tail(r)), cx, os \o Select(d, ap, r[2]),
-                            ev \cup Ev(os # <<>> /\ Select(d, ap, r[2]) # <<>>, "pasteempty"))
-                 ELSE Subst(D, Tail(r), cx, os, ev \cup Ev(os # <<>>, "pasteempty")))
-           ELSE Subst(D, r, cx, os \o a, ev)
+      THEN LET a == Select(d, ap, h) IN          \* left operand of ##: not macro-expanded
+           Subst(D, r, cx, IF a = <<>> THEN Append(os, PM) ELSE os \o a, ev)
     ELSE IF h = "__VA_OPT__" /\ d.va /\ r # <<>> /\ Head(r) = "(" /\ MatchS(r, 1, 0) # 0
       THEN LET close == MatchS(r, 1, 0)
+               content == SubSeq(r, 2, close - 1)
+               rest == SubSeq(r, close + 1, Len(r))
                va == Expand(D, VaArgs(d, ap), Append(cx.encl, cx.m))       \* C++20 [cpp.subst]: F(EMP) has no variable argument
+               ev2 == ev \cup Ev(va.ts = <<>> /\ (Len(ap) > Len(d.params) \/ Len(d.params) = 0), "vaoptempty")
            IN IF HasMarker(va.ts) THEN R(<<Tok("$M")>>, ev)
-              ELSE IF va.ts # <<>>
-              THEN Subst(D, SubSeq(r, 2, close - 1) \o SubSeq(r, close + 1, Len(r)), cx, os, ev)
-              ELSE Subst(D, SubSeq(r, close + 1, Len(r)), cx, os,
-                         ev \cup Ev(Len(ap) > Len(d.params) \/ Len(d.params) = 0, "vaoptempty"))
+              ELSE IF va.ts # <<>> /\ content # <<>> THEN Subst(D, content \o rest, cx, os, ev)
+              ELSE IF rest # <<>> /\ Head(rest) = "##" THEN Subst(D, rest, cx, Append(os, PM), ev2)
+              ELSE Subst(D, rest, cx, os, ev2)
     ELSE IF IsParam(d, h)
       THEN LET a == Expand(D, Select(d, ap, h), Append(cx.encl, cx.m)) IN      \* argument completely replaced in isolation
            IF HasMarker(a.ts) THEN R(<<Last(a.ts)>>, ev)             \* no value: the whole line has none
